@@ -204,6 +204,7 @@ def _spec(tier):
     fw = st.fixed_dictionaries({'send': st.lists(st.sampled_from(NAMES), max_size=2, unique=True),
                                 'recv': st.lists(st.sampled_from(NAMES), max_size=2, unique=True),
                                 'raise': st.one_of(st.just([]), st.just([]), st.lists(st.sampled_from(NAMES), min_size=1, max_size=1)),
+                                'how': st.sampled_from([0, 0, 1, 2, 3, 4]),
                                 'always': st.booleans()})
     fws = st.one_of(st.just({}), st.dictionaries(st.sampled_from(['B', 'A0', 'A1']), fw, max_size=3))
     sizes = st.lists(st.one_of(st.integers(1, 40), st.integers(1, 4096), st.sampled_from([1, 2, 3, 4095, 4096, 4096, 4096])), min_size=1, max_size=6)
